@@ -33,6 +33,9 @@ class Shared:
         self.force_cut = set()
         self.entered_counts = {}
         self.lines_covered = set()
+        self.concrete_dims = None
+        self.used_dims = set()
+        self.all_cands = {}
 
     def trace_enter(self, q):
         self.entered_counts[q] = self.entered_counts.get(q, 0) + 1
@@ -189,6 +192,26 @@ def run_task(name, harness, root=None, setup=None, allow_raise=None, both=False,
                 alive = set()
             shared.houdini[key] = set(alive) - dead
         # remember universe of candidates on the first round
+    # counterexample confirmation on concrete sizes: reductions over symbolic
+    # axes are uninterpreted, so a failed obligation may be an artefact of the
+    # abstraction; re-run with small concrete dimensions (sums unrolled
+    # exactly) and keep 'failed' only if it fails there too.
+    failed = [o for o in res.obligations.values() if o["verdict"] == "failed" and not any(p.startswith("canary") for p in o["name"].split("."))]
+    if failed and shared.used_dims:
+        shared.concrete_dims = {}
+        shared.houdini_dead = {}
+        res2 = TaskResult(name)
+        explore(shared, harness, res2, allow_raise=allow_raise)
+        for o in failed:
+            o2 = res2.obligations.get(o["name"])
+            if o2 is None or o2["verdict"] == "discharged":
+                o["verdict"] = "undecided"
+                o["detail"] = "[not confirmed on concrete sizes %s: symbolic-sum abstraction too weak] %s" % (shared.concrete_dims, o.get("detail"))
+            elif o2["verdict"] == "failed":
+                o["detail"] = "[confirmed on concrete sizes %s] %s" % (shared.concrete_dims, o2.get("detail"))
+                o["model"] = dict(o2.get("model") or {}, **{f"dim:{k}": v for k, v in shared.concrete_dims.items()})
+                o["smt2"] = o2.get("smt2")
+        shared.concrete_dims = None
     res.functions = dict(shared.loader.entered)
     res.lib_used = set(shared.lib.used)
     res.loops = sorted(shared.loops_seen)
